@@ -275,6 +275,9 @@ def rule_R5b(ctx):
         ctx.cannot("R5", "language:q-precision", "the (quality, index, name) tuple of the language selection was not found", ctx.loc(b))
 
 
+SELECTIVE = ("::filter", "::filter_map", "::take", "::skip", "::take_while", "::skip_while", "::step_by", "::nth", "::dedup", "::retain", "::truncate")
+
+
 def rule_R7(ctx):
     """a common header that is present under any capitalisation is not listed as absent (header names are case-insensitive)"""
     P = ctx.program
@@ -292,6 +295,10 @@ def rule_R7(ctx):
                 if any(callee_of(t2).endswith(fold) for _, t2 in P.bodies[x[2]].calls()):
                     hay_f = True
         n += 1
+        sel = sorted({T.short(x[1]) for x in T.calls_in(hay) if x[1].endswith(SELECTIVE)})
+        ctx.check(not sel, "R7", "absent-headers:all-present-names", "every header of the message counts as present",
+                  "the set of present header names is built through %s: a header that is on the wire but filtered out there is listed as absent although it also appears "
+                  "in the header order" % ",".join(sel), ctx.loc(b, blk))
         ctx.check(needle_f and hay_f, "R7", "absent-headers:case-fold", "present names and common-list names are compared case-folded",
                   "the absent-header list compares header names byte for byte (present side folded=%s, list side folded=%s): a common header sent as `host:` or `ACCEPT:` "
                   "is on the wire, appears in the header order, and is nevertheless listed as absent" % (hay_f, needle_f), ctx.loc(b, blk))
